@@ -13,6 +13,7 @@ import (
 	"encoding/json"
 	"fmt"
 	"math/rand"
+	"net/url"
 	"os"
 	"os/exec"
 	"path"
@@ -24,6 +25,7 @@ import (
 	"time"
 
 	"github.com/martian-lang/martian/martian/core"
+	"github.com/martian-lang/martian/martian/syntax"
 	"github.com/martian-lang/martian/martian/util"
 )
 
@@ -127,7 +129,76 @@ func c13RunOne(c *Ctx, spec *c13TASpec, prepostFile string) *c13TARes {
 	var run *TARun
 	ext := ""
 	hooked := map[string]string{}
-	if spec.Hook != "" {
+	if spec.Hook == "keys" || spec.Hook == "badkeys" {
+		// the stage returns its typed maps under other RUN-TIME KEYS: adversarial relative to the
+		// naming scheme ("keys"), and with one key that is not a legal file name in one map of
+		// directory kind ("badkeys": output verification must refuse it, the stage fails)
+		usedBad := false
+		var rekey func(ty *c13Ty, v interface{}, where string) interface{}
+		rekey = func(ty *c13Ty, v interface{}, where string) interface{} {
+			switch ty.Kind {
+			case "a":
+				if xs, ok := v.([]interface{}); ok {
+					et := ty.Elem
+					if ty.Extra > 0 {
+						et = &c13Ty{Kind: "a", Elem: ty.Elem, Extra: ty.Extra - 1}
+					}
+					for i := range xs {
+						xs[i] = rekey(et, xs[i], where)
+					}
+				}
+			case "t":
+				if m, ok := v.(map[string]interface{}); ok {
+					for _, mm := range ty.Ms {
+						if x, ok := m[mm.Id]; ok {
+							m[mm.Id] = rekey(mm.Ty, x, where+"."+mm.Id)
+						}
+					}
+				}
+			case "m":
+				if m, ok := v.(map[string]interface{}); ok && len(m) > 0 {
+					old := make([]string, 0, len(m))
+					for k := range m {
+						old = append(old, k)
+					}
+					sort.Strings(old)
+					bad := spec.Hook == "badkeys" && !usedBad && ty.hasFile()
+					keys, _ := c13MapKeyNames(rng, ty.Elem, len(m), bad)
+					if bad {
+						usedBad = true
+						hooked[where] = "illegal-key"
+					} else {
+						hooked[where] = "rekeyed"
+					}
+					nm := map[string]interface{}{}
+					for i, k := range keys {
+						if i < len(old) {
+							nm[k] = rekey(ty.Elem, m[old[i]], where)
+						} else if len(old) > 0 {
+							// the extra (illegal) key: a structurally valid entry with nothing to move
+							nm[k] = nil
+						}
+					}
+					return nm
+				}
+			}
+			return v
+		}
+		opts.OutsHook = func(job *TAJob, outs map[string]interface{}) {
+			if job.ShellName == "split" || run == nil || run.Ast == nil {
+				return
+			}
+			st, _ := run.Ast.Callables.Table[job.StageName].(*syntax.Stage)
+			if st == nil {
+				return
+			}
+			for _, p := range c13ParamsFromSyntax(&run.Ast.TypeTable, st.OutParams) {
+				if v, ok := outs[p.Id]; ok {
+					outs[p.Id] = rekey(p.Ty, v, p.Id)
+				}
+			}
+		}
+	} else if spec.Hook != "" {
 		opts.OutsHook = func(job *TAJob, outs map[string]interface{}) {
 			if job.ShellName == "split" {
 				return
@@ -685,6 +756,49 @@ func c13TierA(c *Ctx, r *Result) {
 		spec.Src = c13ReplaceKeys(spec.Src, spec.Keys)
 		specs = append(specs, spec)
 	}
+	// stage outputs with typed maps under adversarial run-time keys ("keys"), and with a key that
+	// is not a legal file name among legal ones ("badkeys")
+	nnames := 30
+	if c.Thorough {
+		nnames = 400
+	}
+	for i := 0; i < nnames; i++ {
+		rng := rand.New(rand.NewSource(c.Rng.Int63()))
+		spec := &c13TASpec{Name: fmt.Sprintf("ta-keynames-%d", i), Seed: rng.Int63(), Hook: "keys"}
+		if i%2 == 1 {
+			spec.Hook = "badkeys"
+			spec.Name += "-bad"
+		}
+		var sig *c13Sig
+		for tries := 0; tries < 200; tries++ {
+			sig = c13GenSig(rng, false)
+			if sig.hasDirMap() && sig.maxLeaves() <= 40 {
+				break
+			}
+		}
+		spec.Src = sig.mroDup("", i%4 >= 2, false)
+		specs = append(specs, spec)
+	}
+	// the outputs of a `map call` over a map collected into ONE typed map of structs that is the
+	// top-level output: the fork keys become the keys of a map of directory kind
+	ncollect := 16
+	if c.Thorough {
+		ncollect = 200
+	}
+	for i := 0; i < ncollect; i++ {
+		rng := rand.New(rand.NewSource(c.Rng.Int63()))
+		spec := &c13TASpec{Name: fmt.Sprintf("ta-collect-%d", i), Seed: rng.Int63()}
+		sig := c13GenSmallSig(rng, 9)
+		var names []string
+		for _, p := range sig.Params {
+			if p.Ty.hasFile() {
+				names = append(names, p.expectName())
+			}
+		}
+		keys, _ := c13GenKeySet(rng, names, true)
+		spec.Src = sig.mroCollect(keys)
+		specs = append(specs, spec)
+	}
 	// deterministic sweeps: every simulated crash point of a few programs, and the kill stream at
 	// every entry count of one (quick) or a few (thorough) programs
 	nsim, nkill, capSim, capKill := 3, 1, 37, 25
@@ -765,8 +879,25 @@ func c13CompareAll(c *Ctx, r *Result, specs []*c13TASpec, results []*c13TARes, c
 			}
 			continue
 		}
+		if spec.Hook == "badkeys" && res.Final == "failed" {
+			illegal := false
+			for _, v := range res.Hooked {
+				illegal = illegal || v == "illegal-key"
+			}
+			if illegal {
+				// the correct outcome: output verification refuses the value, the pipestance does not complete
+				r.hist("tierA:illegal-key:refused-by-verification")
+			}
+		}
 		if res.Final != "complete" {
 			continue
+		}
+		if spec.Hook == "badkeys" {
+			for _, v := range res.Hooked {
+				if v == "illegal-key" {
+					r.hist("tierA:illegal-key:pipestance-completed")
+				}
+			}
 		}
 		if spec.Mapped != "" {
 			r.hist("tierA:mapped:" + spec.Mapped)
@@ -821,6 +952,12 @@ func c13CompareAll(c *Ctx, r *Result, specs []*c13TASpec, results []*c13TARes, c
 			key := c13CrashKey(res, "C13:materialise")
 			if keyClass != "" && keyClass != "separable" && key == "C13:materialise" {
 				key = "C13:mapped-key-dirs-overlap"
+			}
+			if ks := c13UnverifiedForkKeys(spec.Mapped, res, pre); len(ks) > 0 && key == "C13:materialise" {
+				// a typed map of directory kind whose illegal key is a FORK key of a map call: such
+				// records are assembled by the runtime and never pass through IsValidJson
+				key = "C13:map-call-keys-unverified"
+				input["fork_keys_not_legal_file_names"] = ks
 			}
 			md := false
 			c13ForEachRecord(spec.Mapped, pre, func(_ string, rec *c13J) {
@@ -1046,4 +1183,62 @@ func c13FaultWriterTie(c *Ctx, r *Result, spec *c13TASpec, res *c13TARes, input 
 			bad("old record + temp sibling is not the model's state after the open and |tmp| bytes", map[string]string{"record": c13Short(mrec), "tmp": c13Short(mtmp)})
 		}
 	}
+}
+
+// c13UnverifiedForkKeys: the keys of typed-map nodes of directory kind in the top-level record
+// that are not legal file names AND are fork keys of a mapped call of this pipestance (a
+// directory fork_<url-escaped key> exists): values collected from a `map call` over a map get
+// their keys from the call's input, not from a verified stage output.
+func c13UnverifiedForkKeys(mapped string, res *c13TARes, pre *c13J) []string {
+	forkDirs := map[string]bool{}
+	for p := range res.Before {
+		if b := filepath.Base(p); strings.HasPrefix(b, "fork_") {
+			forkDirs[b] = true
+		}
+	}
+	found := map[string]bool{}
+	var walk func(t *c13Ty, v *c13J)
+	walk = func(t *c13Ty, v *c13J) {
+		if v == nil || v.K == 'n' || !t.hasFile() {
+			return
+		}
+		switch t.Kind {
+		case "a":
+			if v.K == 'A' {
+				et := t.Elem
+				if t.Extra > 0 {
+					et = &c13Ty{Kind: "a", Elem: t.Elem, Extra: t.Extra - 1}
+				}
+				for _, x := range v.Arr {
+					walk(et, x)
+				}
+			}
+		case "m":
+			if v.K == 'O' {
+				for i, k := range v.Keys {
+					if !c13LegalKey(k) && forkDirs["fork_"+url.PathEscape(k)] {
+						found[k] = true
+					}
+					walk(t.Elem, v.Vals[i])
+				}
+			}
+		case "t":
+			if v.K == 'O' {
+				for _, m := range t.Ms {
+					walk(m.Ty, v.get(m.Id))
+				}
+			}
+		}
+	}
+	c13ForEachRecord(mapped, pre, func(_ string, rec *c13J) {
+		for _, p := range res.Params {
+			walk(p.Ty, rec.get(p.Id))
+		}
+	})
+	var ks []string
+	for k := range found {
+		ks = append(ks, k)
+	}
+	sort.Strings(ks)
+	return ks
 }
